@@ -36,8 +36,10 @@ static bool fails_here(int stage) {   // true -> the caller returns its failure 
   return true;
 }
 
+struct MockData {};   // plays the role of <Behaviour>::BehaviourData for the post-processing entry point
 template <Hyp H, bool FS>
-struct Mock {
+struct Mock : MockData {
+  using BehaviourData = MockData;
   static constexpr unsigned short N = tfel::material::ModellingHypothesisToSpaceDimension<H>::value;
   using real = double; using stress = double; using speed = double; using massdensity = double;
   using SMFlag = std::conditional_t<FS, tfel::material::FiniteStrainBehaviourTangentOperatorBase::Flag, int>;
@@ -69,7 +71,12 @@ struct Mock {
   void exportStateData(mfront_gb_State& s) const {
     for (unsigned short i = 0; i < sig.size(); ++i) s.thermodynamic_forces[i] = sig[i];
     for (int i = 0; i < 3; ++i) s.internal_state_variables[i] = iv[i];
+    if (g_axial) s.internal_state_variables[1] = -0.75;   // an axial strain the plane-stress wrappers cannot turn into a stretch
   }
+  // the other entry points of the generic interface: initialize functions and post-processings
+  void updateExternalStateVariables() {}
+  void initFn(const double* const v) { fails_here(ST_INITFN); for (unsigned short i = 0; i < sig.size(); ++i) sig[i] = v[0] + i; for (int i = 0; i < 3; ++i) iv[i] = v[1] + i; }
+  void postFn(double* const out, const MockData&) { fails_here(ST_POSTFN); out[0] = sig[0]; }
   void computeInternalEnergy(double& e) const { fails_here(ST_INTERNAL_ENERGY); e += 1; }
   void computeDissipatedEnergy(double& e) const { fails_here(ST_DISSIPATED_ENERGY); e += 1; }
 };
@@ -94,7 +101,7 @@ Result run_case(const Case& c) {
   constexpr unsigned short N = tfel::material::ModellingHypothesisToSpaceDimension<H>::value;
   constexpr int SS = tfel::material::ModellingHypothesisToStensorSize<H>::value, TS = tfel::material::ModellingHypothesisToTensorSize<H>::value;
   (void)N;
-  g_stage = c.stage; g_mode = c.mode; g_reduce = c.reduce;
+  g_stage = c.stage; g_mode = c.mode; g_reduce = c.reduce & 1; g_axial = (c.reduce >> 1) & 1;
   double g0[9], g1[9], f0[9], f1[9], iv0[3] = {0.5, 0.01, 0.25}, iv1[3] = {91.5, 0.02, 93.5};
   double K[81]; for (auto& k : K) k = 0;
   double rdt = 1, se0 = 2, se1 = 55.5, de0 = 3, de1 = 66.5, rho = 7800, sos = 0; char msg[512] = {0};
@@ -117,7 +124,9 @@ Result run_case(const Case& c) {
     case 0: r = mfront::gb::integrate<Mock<H, false>>(d, Mock<H, false>::STANDARDTANGENTOPERATOR, pol); break;
     case 1: r = mfront::gb::logarithmic_strain::integrate<Mock<H, false>>(d, pol); break;
     case 2: r = mfront::gb::green_lagrange_strain::integrate<Mock<H, false>>(d, pol); break;
-    default: r = mfront::gb::finite_strain::integrate<Mock<H, true>>(d, pol); break;
+    case 3: r = mfront::gb::finite_strain::integrate<Mock<H, true>>(d, pol); break;
+    case 4: { const double vals[2] = {7.5, 0.25}; r = mfront::gb::executeInitializeFunction<Mock<H, false>, &Mock<H, false>::initFn>(d, vals, pol); } break;
+    default: { double out[2] = {0, 0}; r = mfront::gb::executePostProcessing<Mock<H, false>, &Mock<H, false>::postFn, true>(out, d, pol); } break;
   }
   Result res{r, true, ""};
   auto diff = [&res](const char* name, const double* a, const double* b, int n) {
@@ -127,7 +136,7 @@ Result run_case(const Case& c) {
       snprintf(buf, sizeof buf, "%s[%d]: %.17g -> %.17g; ", name, k, b[k], a[k]); res.what += buf;
     }
   };
-  diff("s1.thermodynamic_forces", f1, f1b, c.wrapper == 0 ? SS : TS);
+  diff("s1.thermodynamic_forces", f1, f1b, (c.wrapper == 0 || c.wrapper >= 4) ? SS : TS);
   diff("s1.internal_state_variables", iv1, iv1b, 3);
   diff("s1.stored_energy", &se1, &se1b, 1);
   diff("s1.dissipated_energy", &de1, &de1b, 1);
